@@ -18,11 +18,12 @@ PROPS['C10'] = {
         'anstyle::{RgbColor::{r,g,b},Ansi256Color::{index,into_ansi,from_ansi}}',
     ],
     'quick': {'verus': ['lossy'], 'kani': [
-        {'crate': 'anstyle-lossy', 'harnesses': ['lossy_passthrough_and_low_indices', 'lossy_find_match_all_equal'], 'timeout': 600}]},
+        {'crate': 'anstyle-lossy', 'harnesses': ['lossy_passthrough_and_low_indices', 'lossy_find_match_all_equal', 'lossy_xterm_table_edges_lo', 'lossy_xterm_table_edges_hi'], 'timeout': 900}]},
     'thorough': {'verus': ['lossy'], 'kani': [
-        {'crate': 'anstyle-lossy', 'harnesses': ['lossy_passthrough_and_low_indices', 'lossy_find_match_all_equal', 'lossy_distance_eq_spec'], 'timeout': 1800}]},
+        {'crate': 'anstyle-lossy', 'harnesses': ['lossy_passthrough_and_low_indices', 'lossy_find_match_all_equal', 'lossy_xterm_table_edges_lo', 'lossy_xterm_table_edges_hi', 'lossy_distance_eq_spec'], 'timeout': 1800}]},
     'twins': {'lossy': [{'crate': 'anstyle-lossy', 'harnesses': ['lossy_distance_eq_spec', 'lossy_find_match_vga', 'lossy_find_match_win10'], 'timeout': 300}]},
-    'bounded': {'lossy_distance_eq_spec': 'cross-engine twin of the Verus proof of `distance`: c1 symbolic, c2 components in {0,128,255}',
+    'bounded': {'lossy_xterm_table_edges_lo': 'three concrete table entries (16, 17, 231): exactness twin of the Verus proof', 'lossy_xterm_table_edges_hi': 'three concrete table entries (232, 254, 255)',
+                'lossy_distance_eq_spec': 'cross-engine twin of the Verus proof of `distance`: c1 symbolic, c2 components in {0,128,255}',
                 'lossy_find_match_all_equal': 'palettes whose 16 entries are one (symbolic) colour, input colour symbolic: tie-break twin of the Verus proof of find_match'},
     'assumptions': [
         'Palette as Index<AnsiColor> / Default / From<RawPalette> trait impls are one-line forwards to functions under contract and are not themselves extracted',
@@ -143,16 +144,24 @@ PROPS['C03'] = {
 PROPS['C04'] = {
     'level': 'proof',
     'functions': ['every function of units parse_core, strip_scan, lossy (Verus checks overflow, bounds, unwrap on all of them)', 'anstyle_parse::state::unpack (transmute)',
-                  'anstyle_parse::Parser::osc_dispatch (MaybeUninit)', 'anstream::adapter::strip::from_utf8_unchecked via next_str', 'anstyle::color::DisplayBuffer'],
+                  'anstyle_parse::Parser::osc_dispatch (MaybeUninit)', 'anstream::adapter::strip::from_utf8_unchecked via next_str', 'anstyle::color::DisplayBuffer',
+                  'anstyle_git::parse_color (string slicing on untrusted words)', 'anstyle_ls::parse code loop (pop_front().unwrap() chains)'],
     'quick': {'verus': ['parse_core', 'strip_scan', 'lossy'], 'kani': [PARSE_LEAVES, VT_UNPACK,
         {'crate': 'anstream', 'harnesses': ['strip_next_str_onecall_n3'], 'timeout': 900},
-        {'crate': 'anstyle', 'harnesses': ['render_write_code_all', 'render_buffer_rgb_fg'], 'timeout': 900, 'fmt_direct': True}]},
+        {'crate': 'anstyle', 'harnesses': ['render_write_code_all', 'render_buffer_rgb_fg'], 'timeout': 900, 'fmt_direct': True},
+        {'crate': 'anstyle-git', 'harnesses': ['git_color_hash6', 'git_color_hash_non_ascii'], 'timeout': 900, 'mem_gb': 10},
+        {'crate': 'anstyle-ls', 'harnesses': ['ls_codes_2'], 'timeout': 900, 'mem_gb': 10}]},
     'thorough': {'verus': ['parse_core', 'strip_scan', 'lossy'], 'kani': [PARSE_LEAVES, VT_UNPACK,
+        {'crate': 'anstyle-git', 'harnesses': ['git_color_word_n4', 'git_color_hash6', 'git_color_hash_non_ascii', 'git_color_names'], 'timeout': 1500, 'mem_gb': 10},
+        {'crate': 'anstyle-ls', 'harnesses': ['ls_codes_2', 'ls_codes_3', 'ls_ext_rgb_38'], 'timeout': 3000, 'mem_gb': 12},
         {'crate': 'anstream', 'harnesses': ['strip_next_str_onecall_n4', 'strip_next_bytes_onecall_n5'], 'timeout': 3000},
         {'crate': 'anstyle', 'harnesses': ['render_write_code_all', 'render_buffer_ansi16', 'render_buffer_ansi256', 'render_buffer_rgb_fg', 'render_buffer_rgb_bg', 'render_buffer_rgb_underline'], 'timeout': 1800, 'fmt_direct': True}]},
     'bounded': {'strip_next_str_onecall_n3': 'valid-UTF-8 piece obligation of from_utf8_unchecked: all valid UTF-8 inputs <= 3 bytes (4 in thorough)',
-                'parse_osc_dispatch_slices': 'payload <= 6 bytes'},
-    'assumptions': ['NOT covered: anstyle-svg and anstyle-roff converters, anstyle_ls::parse tokeniser, anstyle_git::parse (string/alloc code outside both tools, see C11/C12/C14/C15)',
+                'parse_osc_dispatch_slices': 'payload <= 6 bytes',
+                'git_color_hash6': '`#` + six bytes over an 8-symbol hex/non-hex alphabet', 'git_color_hash_non_ascii': 'five concrete `#` words with multi-byte characters at component boundaries',
+                'git_color_word_n4': 'every UTF-8 word of up to 4 bytes', 'git_color_names': 'twelve concrete words',
+                'ls_codes_2': 'two codes, all values', 'ls_codes_3': 'three codes, all values', 'ls_ext_rgb_38': '38;2;r;g;b with all colour values'},
+    'assumptions': ['NOT covered: anstyle-svg and anstyle-roff converters, the anstyle_ls::parse tokeniser, the word loop of anstyle_git::parse (string/alloc code outside both tools, see C11/C12/C14/C15); covered from those crates: parse_color (panic-freedom of the `#` slicing, bounded) and the LS code-application loop (bounded)',
                     'valid-UTF-8-ness of text pieces is proved structurally in Verus (pieces start and end on non-continuation bytes) and bounded-checked with from_utf8 by Kani'],
     'explanation': 'Safety side-conditions of the verified units: Verus discharges no-overflow / in-bounds / unwrap obligations for every extracted function for all inputs; Kani checks the unsafe leaves (transmute for all 256 values, MaybeUninit slices, from_utf8_unchecked) and the 19-byte display buffer.',
 }
@@ -223,29 +232,32 @@ PROPS['C08']['thorough'] = {'kani': [dict(PROPS['C08']['quick']['kani'][0], harn
 
 PROPS['C12'] = {
     'level': 'model_checking',
-    'functions': ['anstyle_ls::parse — the code-application loop (everything after the tokenising statement), cut verbatim (rule E9)'],
-    'quick': {'kani': [{'crate': 'anstyle-ls', 'harnesses': ['ls_codes_1', 'ls_codes_2', 'ls_ext_idx_38', 'ls_ext_idx_48', 'ls_ext_idx_58', 'ls_ext_rgb_38', 'ls_ext_rgb_48', 'ls_ext_rgb_58'], 'timeout': 1500, 'mem_gb': 10}]},
-    'thorough': {'kani': [{'crate': 'anstyle-ls', 'harnesses': ['ls_codes_1', 'ls_codes_2', 'ls_ext_idx_38', 'ls_ext_idx_48', 'ls_ext_idx_58', 'ls_ext_rgb_38', 'ls_ext_rgb_48', 'ls_ext_rgb_58', 'ls_codes_3', 'ls_codes_5'], 'timeout': 3000, 'mem_gb': 12}]},
+    'functions': ['anstyle_ls::parse — the code-application loop (everything after the tokenising statement), cut verbatim (rule E9)', 'anstyle_ls::parse as a whole (concrete strings only)'],
+    'quick': {'kani': [{'crate': 'anstyle-ls', 'harnesses': ['ls_codes_1', 'ls_codes_2', 'ls_ext_idx_38', 'ls_ext_idx_48', 'ls_ext_idx_58', 'ls_ext_rgb_38', 'ls_ext_rgb_48', 'ls_ext_rgb_58', 'ls_text_no_style', 'ls_text_rejects', 'ls_text_accepts'], 'timeout': 1500, 'mem_gb': 10, 'flags': ['-Z', 'restrict-vtable'], 'io_error_unwind': 2}]},
+    'thorough': {'kani': [{'crate': 'anstyle-ls', 'harnesses': ['ls_codes_1', 'ls_codes_2', 'ls_ext_idx_38', 'ls_ext_idx_48', 'ls_ext_idx_58', 'ls_ext_rgb_38', 'ls_ext_rgb_48', 'ls_ext_rgb_58', 'ls_codes_3', 'ls_codes_5', 'ls_text_no_style', 'ls_text_rejects', 'ls_text_accepts'], 'timeout': 3000, 'mem_gb': 12, 'flags': ['-Z', 'restrict-vtable'], 'io_error_unwind': 2}]},
     'bounded': {'ls_codes_1': 'lists of one code, all 256 values', 'ls_codes_2': 'two codes, all values', 'ls_codes_3': 'three codes, all values (covers 38;5;n)',
-                'ls_codes_5': 'five codes, all values (covers 38;2;r;g;b)', **{h: 'introducer and form concrete, colour values symbolic (all 256 / 2^24), followed by code 1' for h in ['ls_ext_idx_38', 'ls_ext_idx_48', 'ls_ext_idx_58', 'ls_ext_rgb_38', 'ls_ext_rgb_48', 'ls_ext_rgb_58']}},
+                'ls_codes_5': 'five codes, all values (covers 38;2;r;g;b)', **{h: 'introducer and form concrete, colour values symbolic (all 256 / 2^24), followed by code 1' for h in ['ls_ext_idx_38', 'ls_ext_idx_48', 'ls_ext_idx_58', 'ls_ext_rgb_38', 'ls_ext_rgb_48', 'ls_ext_rgb_58']},
+                **{h: 'the whole of parse on concrete strings' for h in ['ls_text_no_style', 'ls_text_rejects', 'ls_text_accepts']}},
     'rule': 'one case = one list length with all 256^n code values; non-trivial = verified with a style-changing list reached',
-    'assumptions': ['NOT verified: the tokenising statement (split, u8::from_str, collect into VecDeque) and the early return for "", "0", "00" — CBMC does not finish on this std string/alloc code even for concrete inputs; so "rejects anything that is not a list of numbers" and "no style for the empty string, 0, 00" are not covered',
+    'assumptions': ['the tokenising statement (split, u8::from_str, collect into VecDeque) and the early return for "", "0", "00" are covered on fifteen CONCRETE strings only (ls_text_*: the three no-style strings, eight malformed lists, four well-formed ones) by running the whole of parse; a symbolic 3-byte string does not finish in CBMC (> 8 min, > 6 GB). So "rejects anything that is not a list of numbers" is sampled, not proved',
                     'lists longer than six codes are not explored; 38/48/58 not followed by 5;n or 2;r;g;b (truncated or malformed groups) are outside the statement and unconstrained',
                     'std VecDeque::pop_front as compiled by Kani'],
     'explanation': 'The loop that applies the codes is cut verbatim out of parse (extractor rule E9) and run by Kani on queues of 1-6 symbolic codes against the statement\'s left-to-right semantics; bounded in list length, complete in values.',
 }
 
+GIT_WORDS = ['git_words_separators_0', 'git_words_separators_1', 'git_words_separators_2', 'git_words_separators_3', 'git_words_separators_4', 'git_words_blank', 'git_words_attr_bold', 'git_words_attr_dim', 'git_words_attr_ul', 'git_words_attr_blink', 'git_words_attr_reverse', 'git_words_attr_italic', 'git_words_attr_strike', 'git_words_case', 'git_words_colour_slots', 'git_words_errors']
 PROPS['C11'] = {
     'level': 'model_checking',
-    'functions': ['anstyle_git::parse_color'],
-    'quick': {'kani': [{'crate': 'anstyle-git', 'harnesses': ['git_color_word_n4', 'git_color_hash6', 'git_color_hash_non_ascii', 'git_color_names'], 'timeout': 1500, 'mem_gb': 10}]},
+    'functions': ['anstyle_git::parse_color', 'anstyle_git::parse (word loop: run on concrete descriptions only)'],
+    'quick': {'kani': [{'crate': 'anstyle-git', 'harnesses': ['git_color_word_n4', 'git_color_hash6', 'git_color_hash_non_ascii', 'git_color_names'] + GIT_WORDS, 'timeout': 1500, 'mem_gb': 10, 'jobs': 16, 'flags': ['-Z', 'restrict-vtable'], 'io_error_unwind': 2}]},
     'bounded': {'git_color_word_n4': 'every UTF-8 word of up to 4 bytes', 'git_color_hash6': '`#` + six bytes over an 8-symbol hex/non-hex alphabet (all 262144 words)',
-                'git_color_hash_non_ascii': 'five concrete words', 'git_color_names': 'twelve concrete words'},
-    'rule': 'one case = one word family (all UTF-8 words <= 4 bytes; all #-words over the alphabet; concrete names); non-trivial = verified with covers reached',
-    'assumptions': ['the word loop of anstyle_git::parse (split_whitespace, to_lowercase, attribute keywords, colour counter, error values) is NOT under contract: CBMC does not finish on the Unicode case-folding and allocation code; only parse_color is verified',
+                'git_color_hash_non_ascii': 'five concrete words', 'git_color_names': 'twelve concrete words',
+                **{h: 'the word loop of parse on concrete descriptions: each of the 25 Unicode White_Space characters as separator; blank / padded input; each of the seven attributes alone, negated both ways, and in both orders with its negation; mixed letter case; colour slots; extra-colour and unknown-word errors naming the word as written' for h in GIT_WORDS}},
+    'rule': 'one case = one word family (all UTF-8 words <= 4 bytes; all #-words over the alphabet; concrete names; concrete descriptions for the word loop); non-trivial = verified with covers reached',
+    'assumptions': ['the word loop of anstyle_git::parse (split_whitespace, to_lowercase, attribute keywords, colour counter, error values) is covered on about ninety CONCRETE descriptions only (symbolic strings through std\'s Unicode tables and allocation do not finish in CBMC): a sample, not a proof — single-edit mutations, all two-word combinations and arbitrary Unicode of the statement\'s quantifier are not explored',
                     'the value of a three-digit `#rgb` colour and decimals written with a leading `+` are outside the statement and unconstrained',
                     'the print-and-reparse round trip is not covered'],
-    'explanation': 'Kani checks parse_color against the documented colour syntax (S7) for every UTF-8 word up to 4 bytes, every `#`+6 word over a hex/non-hex alphabet, and the names; no panic on any of them.',
+    'explanation': 'Kani checks parse_color against the documented colour syntax (S7) for every UTF-8 word up to 4 bytes, every `#`+6 word over a hex/non-hex alphabet, and the names; no panic on any of them. The word loop of parse (separators, case, attributes and negations, colour slots, the two error kinds) is run on concrete descriptions.',
 }
 PROPS['C11']['thorough'] = PROPS['C11']['quick']
 
@@ -262,7 +274,9 @@ PROPS['C17'] = {
                     '"stripping it gives back the data" follows from C01 for pure-SGR codes (the codes are shown to be pure SGR by the S4 reading); not re-run here'],
     'explanation': 'Kani checks write_colored against a scripted writer: exact call sequence (fg code, bg code, one plain write of the caller\'s slice, reset; stops at the first error), every code read through S4 on the running terminal state (pure SGR, selects exactly the requested colour, reset restores the default), returned count is what the writer accepted for the data, inner errors surface.',
 }
-PROPS['C17']['thorough'] = PROPS['C17']['quick']
+C17_ROWS = [f'wincon_ansi_row_{tag}_fg{fg:02d}' for tag in ('ok', 'f0', 'f1', 'f2', 'f3') for fg in range(17)]
+PROPS['C17']['thorough'] = {'kani': [dict(PROPS['C17']['quick']['kani'][0], harnesses=C17_H + C17_ROWS, timeout=3000, jobs=16)]}
+PROPS['C17']['bounded'].update({h: 'one row of the 17 x 17 pair table (all 17 background choices for one foreground choice) at one failure point; with the other rows: every pair x every failure point; data 1-2 symbolic bytes, any accepted prefix' for h in C17_ROWS})
 
 PROPS['C20'] = {
     'level': 'proof',
